@@ -32,6 +32,14 @@ theorem c13_leb_go (hleb : LebGoSpec) (n : UInt64) (tail : Bytes) :
     simp [h, h1, h2, h3]
   · simp [h]
 
+/-- ReadLeb128 (64-bit accumulator) agrees with the specification on everything WriteToLeb128
+    produces below 2^56, whatever follows -/
+theorem c13_leb_go_spec (hleb : LebGoSpec) (n : Nat) (rest : Bytes) (hn : n < 2 ^ 56) :
+    readLebGo (writeLeb n ++ rest) =
+      (readLebSpec (writeLeb n ++ rest)).map (fun vk => (vk.1.toUInt64, vk.2)) := by
+  rw [hleb n rest hn, readLebSpec_writeLeb]
+  rfl
+
 example : writeLeb 300 = [0xAC, 0x02] ∧ readLebSpec [0xAC, 0x02, 0xFF] = some (300, 2) := by
   constructor
   · simp [writeLeb]
